@@ -1,0 +1,31 @@
+//go:build verif
+
+// Contracts of package wallet for the govc verifier (/verif). Comment-only file,
+// compiled only with the build tag `verif`.
+package wallet
+
+// what nut12.VerifyBlindSignatureDLEQ accepts (its postcondition @iff)
+//@ macro wbsdleq(d, A, B_str, C_str) = hexok(d.E) && hexok(d.S) && (d.R == "" || hexok(d.R)) && hexok(B_str) && pt.parseok(hexdec(B_str)) && hexok(C_str) && pt.parseok(hexdec(C_str)) && sc.ser(sc.frombytes(hexdec(d.E))) == hashe4(padd(smul(sc.frombytes(hexdec(d.S)), pt.G), smul(sneg(sc.frombytes(hexdec(d.E))), pk.pt(A))), padd(smul(sc.frombytes(hexdec(d.S)), pt.parse(hexdec(B_str))), smul(sneg(sc.frombytes(hexdec(d.E))), pt.parse(hexdec(C_str)))), pk.pt(A), pt.parse(hexdec(C_str)))
+
+// C = C_ - rK, hex in, hex out
+//@ func unblindSignature
+//@   tags C10
+//@   safety C06 C10
+//@   requires r != nil && key != nil
+//@   ensures @ok [C10] r1 == nil <==> hexok(C_str) && pt.parseok(hexdec(C_str))
+//@   ensures @unblind [C10] r1 == nil ==> r0 == hexenc(pt.ser(padd(pt.parse(hexdec(C_str)), smul(sneg(sc.of(r.Key)), pk.pt(*key)))))
+
+// Every signature that carries a DLEQ proof is verified against the keyset's
+// key of ITS amount, the B_ the wallet sent and the C_ it got; the proof the
+// wallet keeps is (e, s) of the mint plus its own r; C is unblinded with the
+// same key and r.
+//@ func constructProofs
+//@   tags C10
+//@   safety C06 C10
+//@   requires keyset != nil && len(blindedMessages) == len(blindedSignatures)
+//@   requires forall j :: 0 <= j && j < len(rs) ==> rs[j] != nil
+//@   requires forall a :: (a in keyset.PublicKeys) ==> keyset.PublicKeys[a] != nil
+//@   calls nut12.VerifyBlindSignatureDLEQ asserts @wiring [C10] A == keyset.PublicKeys[blindedSignature.Amount] && B_str == blindedMessages[i].B_ && C_str == blindedSignature.C_ && dleq == *blindedSignature.DLEQ
+//@   ensures @len [C10] err == nil ==> len(result) == len(blindedSignatures)
+//@   ensures @checked [C10] err == nil ==> (forall j :: 0 <= j && j < len(blindedSignatures) ==> (blindedSignatures[j].Amount in keyset.PublicKeys) && result[j].Amount == blindedSignatures[j].Amount && result[j].Secret == secrets[j] && result[j].Id == blindedSignatures[j].Id && hexok(blindedSignatures[j].C_) && result[j].C == hexenc(pt.ser(padd(pt.parse(hexdec(blindedSignatures[j].C_)), smul(sneg(sc.of(rs[j].Key)), pk.pt(*keyset.PublicKeys[blindedSignatures[j].Amount]))))) && ((blindedSignatures[j].DLEQ == nil) <==> (result[j].DLEQ == nil)) && (blindedSignatures[j].DLEQ != nil ==> wbsdleq(*blindedSignatures[j].DLEQ, *keyset.PublicKeys[blindedSignatures[j].Amount], blindedMessages[j].B_, blindedSignatures[j].C_) && result[j].DLEQ.E == blindedSignatures[j].DLEQ.E && result[j].DLEQ.S == blindedSignatures[j].DLEQ.S && result[j].DLEQ.R == hexenc(sc.ser(sc.of(rs[j].Key)))))
+//@   loop range(blindedSignatures) invariant 0 <= i && i <= len(blindedSignatures) && len(proofs) == len(blindedSignatures) && len(secrets) == len(blindedSignatures) && len(rs) == len(blindedSignatures) && (forall j :: 0 <= j && j < i ==> (blindedSignatures[j].Amount in keyset.PublicKeys) && proofs[j].Amount == blindedSignatures[j].Amount && proofs[j].Secret == secrets[j] && proofs[j].Id == blindedSignatures[j].Id && hexok(blindedSignatures[j].C_) && proofs[j].C == hexenc(pt.ser(padd(pt.parse(hexdec(blindedSignatures[j].C_)), smul(sneg(sc.of(rs[j].Key)), pk.pt(*keyset.PublicKeys[blindedSignatures[j].Amount]))))) && ((blindedSignatures[j].DLEQ == nil) <==> (proofs[j].DLEQ == nil)) && (blindedSignatures[j].DLEQ != nil ==> wbsdleq(*blindedSignatures[j].DLEQ, *keyset.PublicKeys[blindedSignatures[j].Amount], blindedMessages[j].B_, blindedSignatures[j].C_) && proofs[j].DLEQ.E == blindedSignatures[j].DLEQ.E && proofs[j].DLEQ.S == blindedSignatures[j].DLEQ.S && proofs[j].DLEQ.R == hexenc(sc.ser(sc.of(rs[j].Key)))))
